@@ -98,10 +98,28 @@ def run_case(case):
         res = drive_interleaved([(mk, ans) for _, mk, ans in parts], 50, case.get("burst", 1))
         return [_finish(rec, ev, out, case) for (rec, _, _), (ev, out) in zip(parts, res)]
     rec, mk, answer = _prepare(case)
+    import logging
+    root = logging.getLogger()
+    old_level, handler = root.level, None
+    if case.get("debuglog"):
+        # an application that runs with DEBUG logging and a handler that renders every record
+        class Render(logging.Handler):
+            def emit(self, record):
+                record.getMessage()
+        handler = Render()
+        root.addHandler(handler)
+        root.setLevel(logging.DEBUG)
+        logging.disable(logging.NOTSET)        # (the harness silences the library's logging elsewhere)
     try:
-        ev, out = drive(mk(), answer, 50)
-    except Exception as e:  # noqa
-        ev, out = [], {"exc": type(e).__name__, "ret": None}
+        try:
+            ev, out = drive(mk(), answer, 50)
+        except Exception as e:  # noqa
+            ev, out = [], {"exc": type(e).__name__, "ret": None}
+    finally:
+        if handler is not None:
+            root.removeHandler(handler)
+            root.setLevel(old_level)
+            logging.disable(logging.CRITICAL)
     return _finish(rec, ev, out, case)
 
 
@@ -194,6 +212,9 @@ def cases(tier, seed):
     for bad in ("@limit:TcWarmest", "@limit:TcCoolest", "@resp:1", "@float:2.0", "@bool"):
         for d in (("short", 5), ("int", 5), ("group", 2), ("bcast", 0)):
             cs.append({"seq": "query", "dest": d, "selector": bad, "legal": 0, "unit": _unit(rng)})
+    for ix, c in enumerate(cs):
+        if ix % 2:
+            c["debuglog"] = 1
     # two sequences running interleaved (two buses, one process): neither may see anything of the other
     singles = [c for c in cs if c["legal"] and c["seq"] in ("set", "limit", "query")]
     for k in range(200 if tier == "quick" else 5000):
